@@ -135,7 +135,8 @@ def strategy():
     joins = qgen.st_case_select(js=True, force_join=True, order=True, distinct=True, top=True, where_p=3, except_p=0, dup_heavy=True, max_rows=6, max_width=3)
     upd = qgen.st_case_update(js=True, join_p=4)
     updj = qgen.st_case_update(js=True, join_p=1, multi_match=True)
-    return st.one_of(sel, ordd, joins, st_agg_case(), upd, updj, st_failing())
+    exc = qgen.st_case_select(js=True, join_p=0, except_p=1, distinct=True, top=True, order=True)
+    return st.one_of(sel, ordd, joins, st_agg_case(), upd, updj, st_failing(), exc)
 
 
 JS_ERR = {'parsing': ('RbqlParsingError', 'SyntaxError'), 'runtime': ('RbqlRuntimeError',)}
@@ -230,6 +231,8 @@ def check_case(case, drv, stats=None):
         stats.case(case, bool(nt), cl, sample={'js_query': tjs, 'A': case['A'], 'B': case.get('B'), 'a_names': case.get('a_names'), 'out': js['out'][:5], 'header': js['header'], 'error': js['error']})
     ctx = {'js_query': tjs, 'A': case['A'], 'B': case.get('B'), 'a_names': case.get('a_names'), 'b_names': case.get('b_names')}
     # caller's arrays unmodified - on every path
+    if js.get('output_aliases_input') or js.get('rows_replaced'):
+        raise Violation('js-output-aliases-caller-array', dict(ctx, aliases=js.get('output_aliases_input'), rows_replaced=js.get('rows_replaced')))
     if jsdriver.unclean(js['A_after']) != case['A'] or (case.get('B') is not None and jsdriver.unclean(js['B_after']) != case['B']):
         raise Violation('js-caller-array-modified', dict(ctx, A_after=js['A_after'], B_after=js['B_after']))
     if exp_err is not None:
